@@ -22,6 +22,9 @@ type Plan struct {
 	ErrAt    int   `json:"err_at"`   // stream position at which the terminal error occurs (≤ len(Data)); -1 = len(Data)
 	WithData bool  `json:"withdata"` // deliver the terminal error together with the last chunk
 	ErrKind  int   `json:"errkind"`  // 0 io.EOF, 1 io.ErrUnexpectedEOF, 2 ErrInjected, 3 wrapped ErrInjected, 4 CustomErr
+	// LongZeros lifts the bound on consecutive empty reads from 3 to 99 (one below the point at which
+	// bufio-style readers, and bufiox by its own constant, declare the source broken).
+	LongZeros bool `json:"long_zeros,omitempty"`
 	// Recover: the error at ErrAt is transient. It is returned exactly once; afterwards the source
 	// serves Data[ErrAt:] and finally io.EOF (a connection that timed out once and then went on).
 	Recover bool `json:"recover,omitempty"`
@@ -66,8 +69,12 @@ func (p *Plan) Normalize(n int) {
 		if z < 0 {
 			p.Zeros[i] = 0
 		}
-		if z > 3 {
-			p.Zeros[i] = 3
+		lim := 3
+		if p.LongZeros {
+			lim = 99
+		}
+		if z > lim {
+			p.Zeros[i] = lim
 		}
 	}
 	if p.ErrAt < 0 || p.ErrAt > n {
